@@ -18,7 +18,7 @@ import compat  # noqa: F401
 from props.base import corpus_for
 
 ID = 'C19'
-LEAN_MODULES = ['PybtexModel.Props.C19']
+LEAN_MODULES = ['PybtexModel.Props.C19', 'PybtexModel.Props.EngineC19']
 THEOREMS = {
     'C19_content': 'joining the (un-stripped) lines back reproduces the text: s = l0 ++ [c1] ++ drop |indent| l1 ++ ... with white-space c_i (plus at most one final white-space character when the indent is empty); nothing lost, duplicated or altered',
     'C19_content_exact': 'with a non-empty indent (BibTeX output: two blanks) the reconstruction is exact: s = l0 ++ [c1] ++ drop |indent| l1 ++ ...',
@@ -37,8 +37,10 @@ THEOREMS = {
     'C19_indent_emitted_partial': 'continuation lines are indented (emitted lines, white-space indent), restricted form: a continuation line that holds a non-white-space character starts with the indent after rstrip and is not empty; one that is white space only is emitted EMPTY (recorded finding C19-blank-continuation-line)',
     'C19_indent_emitted_neg': 'the unrestricted clause "every emitted continuation line starts with the indent" is false of the code: wrap("aaaa   bbbb", 3) = "aaaa\\n\\n  bbbb"; with the default arguments 79 non-blank characters + two blanks give a second, empty line',
     'C19_default_lines': 'the statement instantiated for the call the engine makes, wrap(text) = wrap(text, 79, two blanks): join of the stripped lines, exact reconstruction, non-white-space characters and words preserved, continuation lines start with two blanks (or are empty), a line longer than 79 has no white space behind column 2, no trailing white space',
-    'C19_engine_newline': 'physical lines of BibTeX-engine output: the newline$ step of the interpreter model (Model/Interp.lean) appends wrap(concatenation of the write$ buffer, 79, "  ") and a line feed to the output and EMPTIES the buffer; write$ appends its operand to the buffer unchanged',
-    'C19_engine_output': 'a program writing groups of pieces, each followed by newline$: the output is group by group the wrapped concatenation of the pieces + line feed; the concatenation of all writes is preserved up to white space; no word is split or merged, within a group or across a newline$',
+    'C19_engine_newline': '[model wiring] (proof rfl) the .newline / .write cases of the interpreter model (Model/Interp.lean) ARE newlineStep / outputStep of Model/Wrap.lean: newline$ appends wrap(concatenation of the buffer, 79, "  ") + line feed and EMPTIES the buffer, write$ appends its operand. A statement between two model files; the run-level claim is C19_engine_run, the link to Interpreter.newline is the correspondence',
+    'C19_engine_output': 'about the fold engineSteps of outputStep / newlineStep over groups of pieces (NOT Interp.run on a .bst program; that is C19_engine_run): the output is group by group the wrapped concatenation of the pieces + line feed; the concatenation of all writes is preserved up to white space; no word is split or merged, within a group or across a newline$',
+    'C19_engine_run': 'EVERY finished run of the interpreter model (Interp.run, any .bst program, input, fuel): the returned .bbl text is engineOutput of the newline$ groups of the run\'s trace of write$ / newline$ calls, so C19_engine_output and group by group C19_default_lines apply to it; one group per newline$, groups = the written pieces in order (all of them when the last output call is newline$; later writes are never output)',
+    'C19_engine_run_nonvacuous': 'a FUNCTION + EXECUTE program run through Interp.run (two pieces, an empty group, an 84-column group that is wrapped, a piece after the last newline$ that is lost): the .bbl text and the groups are as stated',
 }
 RULE = ('exhaustive: every word-length profile of <=N words (lengths 1..6, gaps of 1-2 blanks, 0-2 leading blanks, optional trailing blank) '
         'at every width 3..12 with the default indent; boundary sweep at width 79 (two- and three-word lines with lengths 70..90, '
@@ -822,8 +824,9 @@ LEVEL_TEXT = ('Machine-checked proof (Lean 4) about an executable model of wrap 
               'than the width has no legal break position; lines are as long as possible; rstrip removes trailing white space only; short '
               'texts come back as one stripped line; the loop terminates (well-founded recursion, |indent| < break_pos).  The statement is '
               'instantiated for the call the engine makes (width 79, indent two blanks: C19_default_lines) and tied to the newline$ / write$ '
-              'steps of the interpreter model (C19_engine_newline: the buffer is emptied; C19_engine_output: a sequence of write$ groups and '
-              'newline$ calls preserves the concatenation of all writes up to white space, group by group).  The model is tied to '
+              'steps of the interpreter model (C19_engine_newline: definitional wiring, the buffer is emptied; C19_engine_output: a sequence of write$ groups and '
+              'newline$ calls preserves the concatenation of all writes up to white space, group by group; C19_engine_run: the .bbl text of EVERY finished run of the '
+              'interpreter model on any .bst program is that output for the newline$ groups of its trace of output calls).  The model is tied to '
               'the code by a correspondence check that is exhaustive over small word-length profiles at widths 3..12 (gaps of 1-4 blanks and '
               'tabs in a second family), sweeps the boundary at 79 (incl. blank runs of 75..85 / 150..165 and trailing blanks), samples long '
               'random lines, and runs .bst programs with several newline$ calls, empty buffers and several write$ pieces per line through '
@@ -837,4 +840,6 @@ LEVEL_NOTE = ('Trusted: Lean kernel; axioms propext/Classical.choice/Quot.sound 
               'C19_width_no_break_point), C19_width is the weak one.  Recorded finding C19-blank-continuation-line: a continuation line whose '
               'text is white space only is emitted EMPTY (not indented; a blank line is a paragraph break for TeX; BibTeX drops such '
               'lines) -- C19_indent_emitted_partial / _neg; the check reports it as KNOWN-FINDING only when the output is character for '
-              'character what the unchanged function returns.  Texts that contain a line feed get the line-independent clauses only.')
+              'character what the unchanged function returns.  Texts that contain a line feed get the line-independent clauses only.  Engine layer: C19_engine_newline is '
+              'definitional wiring between Model/Interp.lean and Model/Wrap.lean and C19_engine_output is about the fold engineSteps; the statement about runs is C19_engine_run '
+              '(over the C03 interpreter MODEL; that Interpreter.newline / output in Python are these steps is the correspondence: .bst programs through the real Interpreter).')
